@@ -216,12 +216,14 @@ fn run_one(run: u64, rng: &mut StdRng, rep: &mut Report, trace_out: &mut Vec<Str
         let evs = rec::since(0);
         let disp = evs.iter().filter(|e| e.site == "blocking.dispatch").count();
         let done = evs.iter().filter(|e| e.site == "blocking.done").count();
-        if disp == done || t0.elapsed() > Duration::from_secs(10) {
+        // ... and the pool thread releases its reference a few instructions after `blocking.done`
+        let allocs = evs.iter().filter(|e| e.site == "op.alloc").count();
+        let frees = evs.iter().filter(|e| e.site == "op.free").count();
+        if (disp == done && frees >= allocs) || t0.elapsed() > Duration::from_secs(10) {
             break;
         }
         std::thread::sleep(Duration::from_millis(1));
     }
-    std::thread::sleep(Duration::from_millis(2));
     rec::push("h.hend", 0, 0);
 
     // ---- contract oracle on the outcomes (C02 delivery, C05 promptness/honesty)
